@@ -439,8 +439,29 @@ impl Scenario for Flow {
         }
 
         let nops = p.ops.len();
+        let mut hist5 = H64::new();
+        let mut hist_labels: Vec<Vec<u8>> = vec![];
         for (opi, op) in p.ops.iter().enumerate() {
             ex.log.s(op.name);
+            if opi < 5 {
+                hist5.s(op.name);
+                if op.name == "submit" {
+                    let l = op.get_h("lab").to_vec();
+                    let ix = match hist_labels.iter().position(|x| *x == l) {
+                        Some(i) => i,
+                        None => {
+                            hist_labels.push(l.clone());
+                            hist_labels.len() - 1
+                        }
+                    };
+                    hist5.u(ix as u64);
+                    hist5.u(l.first().copied().unwrap_or(9) as u64);
+                    // call class by size regime: fits / fragments / fails
+                    let len = op.get_u("len");
+                    let buf = op.get_u("buf");
+                    hist5.u(if len > 65_535 || buf < 4 || (0x100..0x600).contains(&op.get_u("ptype")) { 2 } else if buf < len + 4 + 6 { 1 } else { 0 });
+                }
+            }
             match op.name {
                 "submit" => {
                     let len = (op.get_u("len") as usize).min(70_000);
@@ -939,6 +960,14 @@ impl Scenario for Flow {
             let _ = nops;
         }
         ex.st.cov("merge", merge.0);
+        if keep_crc {
+            for r in txlog.borrow().reach.iter().chain(rx.crc.borrow().reach.iter()) {
+                ex.st.cov("crc_table_index_x_position_class", *r as u64);
+            }
+        }
+        if target == "C04" || target == "C15" {
+            ex.st.cov("history5", hist5.0);
+        }
         ex.st.nontrivial = match target {
             "C07" => compared >= 1 && stream_no >= 2 && switches >= 1,
             "C10" => walked_max >= 2,
